@@ -210,3 +210,15 @@ PROPS["C08"] = {
     "outside_claim": ["OrderMaxBids (not in the statement)", "attribute key syntax"],
     "assumptions": ["the oracle is one-directional (accepted implies conditions): a stricter admission rule is not a violation"],
 }
+
+C10_Q = ["Harness_C10_1x1", "Harness_C10_1x2", "Harness_C10_2x1", "Harness_C10_2x2", "Harness_C10_endpoints", "Harness_C10_groups"]
+PROPS["C10"] = {
+    "jobs": [{"pkg": "validation", "files": ["harness/C10/crossval.go"], "quick": C10_Q,
+              "thorough": C10_Q + ["Harness_C10_2x3", "Harness_C10_3x2", "Harness_C10_3x3"], "opts": {"timeout": 30000},
+              "reach": {h: ["accepted", "rejected"] for h in ["Harness_C10_1x1", "Harness_C10_2x2"]}}],
+    "bounds": {"quick": "validateManifestDeploymentGroup: <=2 on-chain resource records x <=2 manifest services (thorough 3x3), every cpu/memory/storage value a symbolic integer in [0,2^62), replica counts symbolic in [1,1000], <=2 endpoints per on-chain record and <=2 exposes per service with symbolic port/external port/protocol/global flag; group-name matching with <=2 groups per side over 3 names",
+               "thorough": "3x3 records/services"},
+    "stubs": COMMON_STUBS,
+    "outside_claim": ["the manifest version hash (json.Marshal + SortJSON + SHA-256 are reflection/crypto code outside the encodable fragment)", "attribute lists inside resource units (empty)", "more than 3 records per group"],
+    "assumptions": ["on-chain and manifest replica counts are >= 1 (both are validated before this comparison)"],
+}
